@@ -1,7 +1,7 @@
 """C18 translator: reads from /repo's current source
-  * the DOM heap constants of src/xercesc/dom/impl/DOMDocumentImpl.cpp         -> coq/theories/Gen/GenDomHeap.v
+  * the DOM heap constants of src/xercesc/dom/impl/DOMDocumentImpl.cpp         -> coq/theories/Gen/GenC18DomHeap.v
   * the initialiser / terminator call lists of util/XMLInitializer.cpp and the globals created in
-    XMLPlatformUtils::Initialize / reset in Terminate (util/PlatformUtils.cpp)  -> coq/theories/Gen/GenInit.v
+    XMLPlatformUtils::Initialize / reset in Terminate (util/PlatformUtils.cpp)  -> coq/theories/Gen/GenC18Init.v
 A construct that can no longer be read raises (the check reports a broken tie)."""
 import os
 import re
@@ -36,11 +36,17 @@ def body_of(txt, header_re):
 def read_dom_heap(repo):
     txt = strip_comments(open(os.path.join(repo, "src/xercesc/dom/impl/DOMDocumentImpl.cpp")).read())
     out = {}
+    consts = {m.group(1): int(m.group(2), 0) for m in
+              re.finditer(r"static\s+const\s+XMLSize_t\s+(\w+)\s*=\s*(0x[0-9A-Fa-f]+|\d+)\s*;", txt)}
     for name in ("kInitialHeapAllocSize", "kMaxHeapAllocSize", "kMaxSubAllocationSize"):
-        m = re.search(r"static\s+XMLSize_t\s+%s\s*=\s*(0x[0-9A-Fa-f]+|\d+)\s*;" % name, txt)
+        m = re.search(r"static\s+XMLSize_t\s+%s\s*=\s*(0x[0-9A-Fa-f]+|\d+|\w+)\s*;" % name, txt)
         if not m:
             raise ValueError("constant %s not found" % name)
-        out[name] = int(m.group(1), 0)
+        v = m.group(1)
+        if v in consts:                      # initialised from a named default (static const XMLSize_t kDefault... = literal)
+            out[name] = consts[v]
+        else:
+            out[name] = int(v, 0)
     # the shape of allocate() the model follows: these fragments must still be there
     alloc = body_of(txt, r"void\s*\*\s*DOMDocumentImpl::allocate\s*\(\s*XMLSize_t\s+amount\s*\)")
     shape = {
@@ -115,7 +121,7 @@ def generate(repo, gendir):
           "Definition arena_block_fits_request : bool := %s.\n"
           % (heap["kInitialHeapAllocSize"], heap["kMaxHeapAllocSize"], heap["kMaxSubAllocationSize"],
              "true" if heap["shape"]["block_fits_request"] else "false"))
-    V.write_if_changed(os.path.join(gendir, "GenDomHeap.v"), v1)
+    V.write_if_changed(os.path.join(gendir, "GenC18DomHeap.v"), v1)
     v2 = ("(** GENERATED by translator/c18_init.py from util/XMLInitializer.cpp and util/PlatformUtils.cpp -- do not edit *)\n"
           "From Coq Require Import String List.\nImport ListNotations.\nLocal Open Scope string_scope.\n"
           "(** X for every initializeX() called by XMLInitializer::initializeStaticData, in call order *)\n"
@@ -131,7 +137,7 @@ def generate(repo, gendir):
           "Definition terminate_resets_dom_heap : bool := %s.\n"
           % (coq_strlist(il["inits"]), coq_strlist(il["terms"]), coq_strlist(il["created"]), coq_strlist(il["deleted"]),
              coq_strlist(il["zeroed"]), "true" if il["dom_reset"] else "false"))
-    V.write_if_changed(os.path.join(gendir, "GenInit.v"), v2)
+    V.write_if_changed(os.path.join(gendir, "GenC18Init.v"), v2)
     return dict(heap=heap, init=il)
 
 
